@@ -11,3 +11,4 @@ pub mod rib;
 pub mod bgp;
 pub mod mrt;
 pub mod frim;
+pub mod bmp_http;
